@@ -52,7 +52,7 @@ Definition cnn_channel_args (ch : list Z) (hl nn : option Z) (r1 r2 : Z) : Z * Z
   match hl, nn with
   | None, None => (pick 0 (zlen ch) r1, choose channel_choices r2)
   | None, Some n => (pick 0 (zlen ch) r1, n)
-  | Some l, None => (Z.min l (zlen ch - 1), choose channel_choices r1)
+  | Some l, None => (Z.min l (zlen ch - 1), choose channel_choices r2)
   | Some l, Some n => (Z.min l (zlen ch - 1), n)
   end.
 
